@@ -3,6 +3,8 @@ package wire
 import (
 	"context"
 	"errors"
+	"fmt"
+	"io"
 
 	"github.com/jeroenrinzema/psql-wire/pkg/buffer"
 	"github.com/lib/pq/oid"
@@ -21,6 +23,7 @@ type vEvent struct {
 	query  []byte
 	params []Parameter
 	ctx    context.Context
+	live   bool // the context was not yet cancelled when the callback was entered
 }
 
 type vStmtInfo struct {
@@ -42,10 +45,12 @@ type vWorld struct {
 	stmts  []*vStmtInfo // every statement ever returned by the ParseFn stub
 
 	// behaviour menus (sizes chosen per harness)
-	parseMenu int // ParseFn outcomes: 0 error, 1 one stmt/1 col, 2 one stmt/0 cols, 3 zero stmts, 4 two stmts
+	parseMenu int // ParseFn outcomes: 0 error, 1 one stmt/1 col, 2 one stmt/0 cols, 3 zero stmts, 4 two stmts, 5 one stmt/empty non-nil cols
 	execMenu  int // statement fn outcomes: 0 one row + Complete, 1 error, 2 Complete only, 3 row then error
 	lastParse []*vStmtInfo
 	lastParseErr bool
+	errKind   int
+	errChosen bool
 	freshWriters  []bool
 	countersRight []bool
 }
@@ -53,16 +58,57 @@ type vWorld struct {
 var errVerifParse = errors.New("verif: parse failed")
 var errVerifExec = errors.New("verif: statement failed")
 
+// cbErr is the error a failing callback returns. With ERRKINDS > 0 its
+// identity is the solver's choice (once per world) among values a handler may
+// well return and that the library itself gives a meaning to elsewhere — a
+// cancelled or expired context of the handler's own, io.EOF, a closed writer,
+// a size error: whatever it is, it is the handler's error and is reported as
+// one ErrorResponse like any other.
+func (w *vWorld) cbErr(dflt error) error {
+	if vParam("ERRKINDS", 0) == 0 {
+		return dflt
+	}
+	if !w.errChosen {
+		w.errKind, w.errChosen = vChoose(7), true
+	}
+	switch w.errKind {
+	case 1:
+		vReach("callback-returns-context-canceled")
+		return context.Canceled
+	case 2:
+		return context.DeadlineExceeded
+	case 3:
+		return io.EOF
+	case 4:
+		return ErrClosedWriter
+	case 5:
+		return buffer.NewMessageSizeExceeded(64, 65)
+	case 6:
+		return fmt.Errorf("wrapped: %w", context.Canceled)
+	}
+	return dflt
+}
+
+// mkStmt: cols == -1 declares an EMPTY BUT NON-NIL column list (a handler that
+// builds its columns dynamically), which must behave like no columns at all.
 func (w *vWorld) mkStmt(cols, nparams int) *PreparedStatement {
+	emptyNonNil := cols < 0
+	if emptyNonNil {
+		cols = 0
+	}
 	info := &vStmtInfo{id: w.nextID, cols: cols, nparams: nparams, outcome: vChoose(w.execMenu)}
 	w.nextID++
 	w.stmts = append(w.stmts, info)
 	var columns Columns
+	if emptyNonNil {
+		columns = make(Columns, 0)
+		vReach("empty-non-nil-columns")
+	}
 	for i := 0; i < cols; i++ {
 		columns = append(columns, Column{Name: "c", Oid: oid.T_text})
 	}
 	fn := func(ctx context.Context, dw DataWriter, params []Parameter) error {
-		w.events = append(w.events, vEvent{kind: 'x', id: info.id, params: params, ctx: ctx})
+		w.events = append(w.events, vEvent{kind: 'x', id: info.id, params: params, ctx: ctx, live: ctx.Err() == nil})
 		// every statement gets a fresh result writer: nothing written, not closed
 		w.freshWriters = append(w.freshWriters, dw.Written() == 0)
 		defer func() {
@@ -86,7 +132,7 @@ func (w *vWorld) mkStmt(cols, nparams int) *PreparedStatement {
 			}
 			return dw.Complete("T")
 		case 1:
-			return errVerifExec
+			return w.cbErr(errVerifExec)
 		case 2:
 			return dw.Complete("T")
 		case 4: // two rows, then complete
@@ -101,7 +147,7 @@ func (w *vWorld) mkStmt(cols, nparams int) *PreparedStatement {
 			if err := dw.Row(row); err != nil {
 				return err
 			}
-			return errVerifExec
+			return w.cbErr(errVerifExec)
 		}
 	}
 	opts := []PreparedOptionFn{WithColumns(columns)}
@@ -113,28 +159,65 @@ func (w *vWorld) mkStmt(cols, nparams int) *PreparedStatement {
 }
 
 func (w *vWorld) parse(ctx context.Context, query string) (PreparedStatements, error) {
-	w.events = append(w.events, vEvent{kind: 'p', query: []byte(query), ctx: ctx})
+	w.events = append(w.events, vEvent{kind: 'p', query: []byte(query), ctx: ctx, live: ctx.Err() == nil})
 	w.lastParse = nil
 	w.lastParseErr = false
 	if w.parseMenu == -2 { // deterministic: exactly one statement with one column
 		return Prepared(w.mkStmt(1, 0)), nil
 	}
-	if w.parseMenu < 0 { // exactly one statement, 1 or 0 columns
-		return Prepared(w.mkStmt(vChoose(2), 0)), nil
+	if w.parseMenu < 0 { // exactly one statement: 1 column, none (nil), or none (empty non-nil)
+		return Prepared(w.mkStmt(vChoose(3)-1, 0)), nil
 	}
 	switch vChoose(w.parseMenu) {
 	case 0:
 		w.lastParseErr = true
-		return nil, errVerifParse
+		return nil, w.cbErr(errVerifParse)
 	case 1:
 		return Prepared(w.mkStmt(1, 0)), nil
 	case 2:
 		return Prepared(w.mkStmt(0, 0)), nil
 	case 3:
 		return Prepared(), nil
-	default:
+	case 4:
 		return Prepared(w.mkStmt(1, 0), w.mkStmt(0, 0)), nil
+	default:
+		return Prepared(w.mkStmt(-1, 0)), nil
 	}
+}
+
+// vServerCfg builds a server from options, or — the solver's choice — builds
+// it without them and writes the same configuration directly to the exported
+// fields (Auth, BufferedMsgSize, Parameters, TLSConfig, Session, Statements,
+// Portals, CloseConn, TerminateConn, Version), which the API equally allows.
+// What only an option can set (logger, type extensions) is carried over.
+func vServerCfg(parse ParseFn, opts ...OptionFn) (*Server, error) {
+	srv, err := NewServer(parse, opts...)
+	if err != nil || !nondetBool() {
+		return srv, err
+	}
+	bare, err := NewServer(parse)
+	if err != nil {
+		return bare, err
+	}
+	bare.Auth, bare.BufferedMsgSize, bare.Parameters, bare.TLSConfig = srv.Auth, srv.BufferedMsgSize, srv.Parameters, srv.TLSConfig
+	bare.Session, bare.Statements, bare.Portals = srv.Session, srv.Statements, srv.Portals
+	bare.CloseConn, bare.TerminateConn, bare.Version = srv.CloseConn, srv.TerminateConn, srv.Version
+	bare.logger, bare.types, bare.typeExtensions = srv.logger, srv.types, srv.typeExtensions
+	vReach("configured-through-exported-fields")
+	return bare, nil
+}
+
+// vNewWorldCfg is vNewWorld with the configuration route left to the solver.
+func vNewWorldCfg(input []byte, limit int, opts ...OptionFn) *vWorld {
+	w := &vWorld{parseMenu: 2, execMenu: 2}
+	all := append([]OptionFn{MessageBufferSize(limit)}, opts...)
+	srv, err := vServerCfg(w.parse, all...)
+	vAssert("newserver-ok", err == nil)
+	w.srv = srv
+	w.conn = vNewConn(input)
+	w.ses, w.rd, w.wr = vSession(srv, w.conn)
+	w.ctx = vCtx(srv)
+	return w
 }
 
 func vNewWorld(input []byte, limit int, opts ...OptionFn) *vWorld {
@@ -472,10 +555,22 @@ func VerifH05b() {
 	}
 	input := vMsgBytes('Q', vCStr(q))
 	w := vNewWorld(input, 64)
-	w.parseMenu = 5
+	w.parseMenu = 6
 	w.execMenu = 5
 	got, err := w.step()
 	vAssert("connection-stays-up", err == nil)
+	// every parser and statement call of the command gets a context that is
+	// still live when it starts — also the second statement of one query
+	nx := 0
+	for _, ev := range w.events {
+		vAssert("callback-context-live-while-the-command-runs", ev.live)
+		if ev.kind == 'x' {
+			nx++
+		}
+	}
+	if nx >= 2 {
+		vReach("second-statement-ran")
+	}
 
 	blank := true
 	for i := range q {
